@@ -48,6 +48,12 @@ static PROGRESS: std::sync::Mutex<Option<(String, std::time::Instant, bool)>> = 
 pub fn begin_case(case: &str) {
     *PROGRESS.lock().unwrap() = Some((case.to_string(), std::time::Instant::now(), true));
 }
+/// the same for engines whose cases can take the whole process down (a panic inside a destructor during an unwind
+/// aborts): the case is also left in `<out>/<engine>.current`, so that the check can name it
+pub fn begin_case_logged(case: &str, out: &PathBuf, engine: &str) {
+    begin_case(case);
+    let _ = std::fs::write(out.join(format!("{engine}.current")), case);
+}
 fn end_case(case: &str) {
     *PROGRESS.lock().unwrap() = Some((case.to_string(), std::time::Instant::now(), false));
 }
